@@ -446,6 +446,15 @@ func opContains(class string, t netutil.TrustedNetworks, addr *string) {
 }
 
 func opWrap(class string, pp *proxy.C33ProxyProtocol, addr *string, kind string) {
+	if addr == nil {
+		opWrapAddr(class, pp, nil, kind)
+		return
+	}
+	opWrapAddr(class, pp, strAddr{*addr}, kind)
+}
+
+// opWrapAddr wraps a fake conn whose RemoteAddr() is the given net.Addr implementation (nil allowed).
+func opWrapAddr(class string, pp *proxy.C33ProxyProtocol, remote net.Addr, kind string) {
 	r := run.Rng
 	var hdr []byte
 	var src string
@@ -460,12 +469,10 @@ func opWrap(class string, pp *proxy.C33ProxyProtocol, addr *string, kind string)
 	if kind == "bad" {
 		pl = nil
 	}
-	var remote net.Addr
 	addrHex, hh, ph := "nil", "-", "err"
-	if addr != nil {
-		remote = strAddr{*addr}
-		addrHex = hx.HexS(*addr)
-		hh, ph = parsedHostTok(*addr)
+	if remote != nil {
+		addrHex = hx.HexS(remote.String())
+		hh, ph = parsedHostTok(remote.String())
 	}
 	out := hx.Guard(guardT, func() string {
 		fc := &fakeConn{r: bytes.NewReader(append(append([]byte{}, hdr...), pl...)), remote: remote, idle: kind == "idle"}
@@ -529,10 +536,119 @@ func opWrap(class string, pp *proxy.C33ProxyProtocol, addr *string, kind string)
 	run.Case(class+"-"+k, fmt.Sprintf("wr %s %s %s %s %s %s", addrHex, hh, ph, k, srcHex, hx.Hex(pl)), out)
 }
 
+// ---------- socket-address probe: every net.Addr implementation the proxy can see ----------
+
+// sockAddr builds one net.Addr of the given kind from raw IP bytes (4 or 16, or none) and a zone.
+func sockAddr(kind string, ip []byte, zone string, port int) net.Addr {
+	switch kind {
+	case "tcp":
+		return &net.TCPAddr{IP: net.IP(ip), Port: port, Zone: zone}
+	case "udp":
+		return &net.UDPAddr{IP: net.IP(ip), Port: port, Zone: zone}
+	case "ip":
+		return &net.IPAddr{IP: net.IP(ip), Zone: zone}
+	}
+	return strAddr{(&net.TCPAddr{IP: net.IP(ip), Port: port, Zone: zone}).String()} // only String()
+}
+
+// opContainsAddr calls the real Contains with a concrete net.Addr implementation.  The op line carries the
+// raw IP bytes + zone the address denotes (the spec judges membership of THAT address, normalised) and the
+// printed form with its parsed host (the model follows the code's own route through the string).
+func opContainsAddr(class string, t netutil.TrustedNetworks, kind string, ip []byte, zone string, port int) {
+	a := sockAddr(kind, ip, zone, port)
+	str := a.String()
+	hh, ph := parsedHostTok(str)
+	out := hx.Guard(guardT, func() string {
+		if t.Contains(a) {
+			return "1"
+		}
+		return "0"
+	})
+	run.Case(class, fmt.Sprintf("cta %s %s %s %s %s %s", kind, hx.Hex(ip), hx.HexS(zone), hx.HexS(str), hh, ph), out)
+}
+
+func mapped16(b4 []byte) []byte {
+	return append([]byte{0, 0, 0, 0, 0, 0, 0, 0, 0, 0, 0xff, 0xff}, b4...)
+}
+
+// ipForms returns the byte forms a socket address of this netip.Addr can carry:
+// IPv4 → 4-byte and 16-byte IPv4-mapped; IPv6 → 16-byte.
+func ipForms(a netip.Addr) [][]byte {
+	if a.Is4() {
+		b := a.As4()
+		return [][]byte{b[:], mapped16(b[:])}
+	}
+	b := a.As16()
+	return [][]byte{b[:]}
+}
+
+func sockProbe(class string, pp *proxy.C33ProxyProtocol, tn netutil.TrustedNetworks, a netip.Addr, wrapKinds []string) {
+	r := run.Rng
+	port := 1 + r.Intn(65535)
+	for _, ip := range ipForms(a) {
+		zone := ""
+		if a.Is6() && !a.Is4In6() && r.Chance(1, 2) {
+			zone = hx.Pick(r, []string{"eth0", "1", "wlan0"}) // zones only occur on native IPv6 (link-local) peers
+		}
+		for _, kind := range []string{"tcp", "udp", "ip", "str"} {
+			opContainsAddr(class, tn, kind, ip, zone, port)
+		}
+		for _, wk := range wrapKinds {
+			opWrapAddr(class+"-wrap", pp, sockAddr(hx.Pick(r, []string{"tcp", "udp"}), ip, zone, port), wk)
+		}
+	}
+}
+
+func sockSection() {
+	r := run.Rng
+	// fixed regression lists and peers first (deterministic): trusted IPv4 upstream seen through a dual-stack
+	// socket (16-byte IPv4-mapped TCPAddr), IPv6 ranges covering ::ffff:0:0/96, zoned link-local peers
+	fixedLists := [][]string{
+		{"127.0.0.0/8", "10.0.0.0/8", "192.0.2.7"},
+		{"::/64"},
+		{"::/0"},
+		{"fe80::/10", "::1"},
+		config.ResolveProxyProtocolTrustedProxies(nil),
+	}
+	fixedPeers := []string{"127.0.0.1", "10.9.8.7", "192.0.2.7", "192.0.2.8", "1.2.3.4", "::1", "fe80::1", "::2", "2001:db8::1", "0.0.0.0", "255.255.255.255"}
+	for _, l := range fixedLists {
+		pp, tn := setList("sock-list", l)
+		if pp == nil {
+			continue
+		}
+		for _, ps := range fixedPeers {
+			sockProbe("sock-fixed", pp, tn, netip.MustParseAddr(ps), []string{"proxy", "none"})
+		}
+		// addresses without an IP
+		opContainsAddr("sock-fixed", tn, "tcp", nil, "", 25565)
+		opContainsAddr("sock-fixed", tn, "udp", nil, "", 0)
+		opContainsAddr("sock-fixed", tn, "ip", nil, "", 0)
+	}
+	// generated lists, peers inside / at the edge of / outside each network, all forms
+	for li := 0; li < run.Scale(60, 600); li++ {
+		var entries []string
+		for j := 0; j < 1+r.Intn(4); j++ {
+			entries = append(entries, validEntry(r))
+		}
+		if r.Chance(1, 4) {
+			entries = append(entries, hx.Pick(r, []string{"::/0", "::/64", "::/80", "::/95", "::/96", "0.0.0.0/0", "::fffe:0:0/96"}))
+		}
+		pp, tn := setList("sock-list", entries)
+		if pp == nil {
+			continue
+		}
+		for j := 0; j < run.Scale(8, 16); j++ {
+			sockProbe("sock-random", pp, tn, peerNear(r, tn), []string{hx.Pick(r, []string{"proxy", "proxy", "none", "local"})})
+		}
+	}
+}
+
 func main() {
 	run = hx.Start()
 	run.Rng = hx.NewRng(scramble(run.Seed))
 	r := run.Rng
+
+	sockSection()
 
 	// Host extraction
 	for _, a := range oddPeers {
